@@ -16,7 +16,7 @@ import (
 // loudly, truncation is detected, and highly compressible payloads (bombs)
 // expand lazily in Read. Instances are instrumented.
 //
-// Format: magic[4] { uvarint(count>0) byte }* 0x00
+// Format: magic[4] { uvarint(count>0) byte }* 0x00 fnv32(uncompressed)[4]
 
 func magicOf(name string) [4]byte { return [4]byte{'S', 'I', 'M', name[0]} }
 
@@ -102,8 +102,18 @@ func (c *simCompressor) Close() error {
 		i = j
 	}
 	out = append(out, 0)
+	out = binary.BigEndian.AppendUint32(out, fnv32(data))
 	_, err := c.w.Write(out)
 	return err
+}
+
+func fnv32(b []byte) uint32 {
+	h := uint32(2166136261)
+	for _, c := range b {
+		h ^= uint32(c)
+		h *= 16777619
+	}
+	return h
 }
 
 type simDecompressor struct {
@@ -112,6 +122,7 @@ type simDecompressor struct {
 	r      *bufio.Reader
 	run    uint64
 	b      byte
+	sum    uint32
 	done   bool
 	reset  bool
 	closed bool
@@ -121,6 +132,7 @@ func (d *simDecompressor) Reset(r io.Reader) error {
 	d.reset = true
 	d.closed = false
 	d.run, d.done = 0, false
+	d.sum = 2166136261
 	if d.r == nil {
 		d.r = bufio.NewReaderSize(r, 512)
 	} else {
@@ -161,6 +173,8 @@ func (d *simDecompressor) Read(p []byte) (int, error) {
 			for i := uint64(0); i < k; i++ {
 				p[n] = d.b
 				n++
+				d.sum ^= uint32(d.b)
+				d.sum *= 16777619
 			}
 			d.run -= k
 			continue
@@ -177,8 +191,15 @@ func (d *simDecompressor) Read(p []byte) (int, error) {
 		}
 		if cnt == 0 {
 			d.done = true
+			var sum [4]byte
+			if _, err := io.ReadFull(d.r, sum[:]); err != nil {
+				return n, fmt.Errorf("sim %s: missing checksum: %w", d.a.name, io.ErrUnexpectedEOF)
+			}
+			if binary.BigEndian.Uint32(sum[:]) != d.sum {
+				return n, fmt.Errorf("sim %s: checksum mismatch", d.a.name)
+			}
 			if _, err := d.r.ReadByte(); err == nil {
-				return n, fmt.Errorf("sim %s: data after terminator", d.a.name)
+				return n, fmt.Errorf("sim %s: data after checksum", d.a.name)
 			}
 			break
 		}
